@@ -96,12 +96,12 @@ def outcome(line, out):
     o = parse_out(out)
     if o is None:
         return "crash"
-    return {0: "returned", 1: "deadlock", 888888: "panic"}.get(o[0][0], "other")
+    return {0: "returned", 1: "deadlock", 18446744073710440504: "panic"}.get(o[0][0], "other")
 
 
 def oracle(line, impl_line):
     o = parse_out(impl_line)
-    if o is None or o[0] == [888888]:
+    if o is None or o[0] == [18446744073710440504]:
         return "connection task crashed or panicked"
     cfg, rscript, wscript, segs, scripts = C07.decode_case(line)
     head, cons, wlog, inv, shut = C07.parse_events(o)
@@ -133,7 +133,7 @@ def oracle(line, impl_line):
     pos, k = 0, 0
     for iv in inv:
         for ev, d in iv["ops"]:
-            bad = (ev[0] == 2 and ev[1] == 0) or (ev[0] == 1 and ev[1] == 1 and ev[2] == 0)
+            bad = (ev[0] == 2 and ev[1] == 0) or (ev[0] == 1 and ev[1] == 1 and ev[2] == 0) or (ev[0] == 3 and ev[1] == 1 and not d)
             if bad:
                 # locate this request's records and check that its first stream has a terminator in the wire
                 begins = [q for q, r in enumerate(recs) if r[0] == BEGIN and len(r[2]) == 8 and 1 <= r[2][0] * 256 + r[2][1] <= 3]
